@@ -30,6 +30,21 @@ Theorem C19_parse_sign : forall s d, parse s = Ok d -> (dval d < 0)%Q -> has_pre
 Proof. exact parse_sign. Qed.
 Print Assumptions C19_parse_sign.
 
+(* every literal [+-]? d* [. d*] ([eE] [+-]? d+)? (at least one mantissa digit) whose exponents are
+   within the package limits is accepted, with coefficient = the mantissa digits *)
+Theorem C19_parse_complete : forall (neg : bool) sign ip fp (pt : bool) exo exl e,
+  (sign = [] /\ neg = false \/ sign = ["+"%byte] /\ neg = false \/ sign = ["-"%byte] /\ neg = true) ->
+  (pt = false -> fp = []) ->
+  forallb is_digit ip = true -> forallb is_digit fp = true -> ip ++ fp <> [] ->
+  exp_src exo exl e ->
+  exp_in_limits e = true -> Z.of_nat (List.length fp) <= 100000 ->
+  exp_in_limits (e - Z.of_nat (List.length fp)) = true ->
+  min_exponent <= e - Z.of_nat (List.length fp) + num_digits (dec_digits_val (ip ++ fp)) - 1 <= max_exponent ->
+  parse (sign ++ ip ++ (if pt then "."%byte :: fp else []) ++ exo) =
+  Ok (mkDec neg (dec_digits_val (ip ++ fp)) (e - Z.of_nat (List.length fp))).
+Proof. exact parse_complete. Qed.
+Print Assumptions C19_parse_complete.
+
 Example C19_parse_ex :
   parse (b "-12.50E+3") = Ok (mkDec true 1250 1) /\
   value_of (b "-12.50E+3") = Some (dval (mkDec true 1250 1)) /\
